@@ -50,13 +50,199 @@ REC = "src/core/store/recovery.rs"
 WB = "src/storage/write_buffer.rs"
 RECORD = "src/core/record.rs"
 
-PROPS["T"] = {  # scratch group for development
-    "technique": "dev", "level_text": "dev", "level_note": "dev",
+
+LOCKS = "parking_lot RawRwLock/RawMutex *_slow paths -> assume(false) (sequential harnesses: locks always uncontended; Kani 0.68 ICEs on the real slow paths)"
+CRCSEL = "seq_token::select_crc32c gets a cfg(kani) line asking the harness module for the CRC implementation: the crate's own crc32c_sw (default; cpuid/SSE4.2/ARM paths are not encodable), a RECORDER that logs exactly which bytes are fed in which order and checks seed chaining, a havoc (arbitrary u32) or a constant"
+DROPSLOW = "std::sync::Arc::drop_slow -> no-op (Record drop glue: Bytes vtable dispatch + recursive successor chain explodes; harnesses never let a count reach zero)"
+SORT = "X.sort_unstable_by_key(F) statements get a cfg(kani) twin calling an insertion-sort model (kani/sort_stub.rs): std's pdqsort is unexplorable under lengths CBMC cannot constant-propagate"
+BTREE = "std::collections::BTreeMap -> kani/verif_btree.rs (bounded model, capacity 4) inside free_space.rs"
+
+PROPS["C10"] = {
+    "technique": "bounded model checking (Kani/CBMC) of the real encoders/decoders against an independent reference of the documented layout; CRC coverage via a recording CRC, CRC kernel against a bitwise reference",
+    "level_text": "SAT-decided for all inputs in bound: record header bytes (v1/v2, 3-byte symbolic key, all u64 fields) equal the documented layout and round-trip; the record token covers exactly sector_le||extent-with-bytes-2..4-zeroed (all extents <=48 bytes) and folds to a non-zero u16; retirement markers (1 and 2 blocks) are byte-exact and bind sector+state; journal images (0..2 extents) have the documented offsets/size/checksum coverage; Metadata::from_bytes on ALL 136-byte inputs accepts exactly the documented validator's set with the documented CRC message and field offsets; generation advance keeps the image valid; crc32c_sw equals the bitwise Castagnoli reference per byte step from any state, is streaming (<=6 bytes) and matches the known answer.",
+    "level_note": "Decides the byte-level layout kernels only: no file is written or reopened (FeoxStore is not constructible under Kani), so 'after flush() an independent reader finds exactly the live keys', golden files and v1/v2 write-compatibility are outside the claim. CRC hardware paths excluded; equality of long-message CRCs rests on byte-step + streaming induction.",
+    "jobs": 8,
+    "functions": [FMT + "::serialize_record_into", FMT + "::parse_record", FMT + "::write_retirement_marker", FMT + "::fill_retirement_markers", FMT + "::retirement_marker_token",
+                  SEQ + "::crc32c_sw", SEQ + "::record_seq_token", SEQ + "::seq_token", SEQ + "::stamp_seq_token", SEQ + "::nonzero_token",
+                  META + "::from_bytes", META + "::validate", META + "::encode", META + "::checksum", META + "::advance_generation",
+                  JRN + "::encode_active", JRN + "::encode_clear", JRN + "::journal_header", JRN + "::journal_checksum", JRN + "::journal_image_size", IO + "::metadata_block",
+                  REC + "::record_crc_head", REC + "::record_token", REC + "::is_complete_retirement_block"],
     "kani": [
-        H(META, "c10_metadata_from_bytes_total", ""), H(META, "c17_metadata_short_input", ""), H(META, "c10_metadata_advance_generation", ""),
-        H(JRN, "c10_journal_encode_active_layout", ""), H(JRN, "c10_journal_encode_clear_layout", ""), H(JRN, "c10_journal_geometry", ""),
-        H(JRN, "c17_journal_decode_slot_count0", ""), H(JRN, "c17_journal_decode_slot_count1", ""), H(JRN, "c17_journal_decode_slot_count2", ""),
-        H(JRN, "c17_journal_decode_slot_count3", ""), H(JRN, "c17_journal_decode_slot_huge_count", ""),
-        H(JRN, "c03_journal_decode_selects_newest_valid", ""), H(JRN, "c17_journal_decode_wrong_length", ""),
+        H(SEQ, "c10_crc32c_byte_step", "crc32c_sw one byte from ANY state == 8 bitwise reflected-0x82F63B78 steps", "all (u32 state, u8)"),
+        H(SEQ, "c10_crc32c_known_answer", "crc32c(0,'123456789') == 0xE3069283 through the public entry point", "concrete"),
+        H(SEQ, "c10_crc32c_sw_matches_bitwise_3", "crc32c_sw == bitwise reference", "<=3 symbolic bytes, any seed"),
+        H(SEQ, "c10_crc32c_streaming", "crc(crc(s,a),b) == crc(s,a||b)", "|a|+|b| <= 6", tier="thorough"),
+        H(SEQ, "c10_record_token_coverage", "record_seq_token feeds sector_le||data[0..2]||0000||data[4..] chained, folds to non-zero u16", "extent image 4..48 bytes, any sector"),
+        H(SEQ, "c10_record_token_ignores_seq_field", "real kernel: token != 0 and independent of bytes 2..4", "8-byte image", tier="thorough"),
+        H(SEQ, "c10_seq_token_coverage", "seq_token feeds sector_le||bytes", "17 bytes"),
+        H(SEQ, "c10_stamp_seq_token", "stamp_seq_token changes only bytes 2..4, to the reference token, iff the head has a parsable header", "40-byte head, v1/v2"),
+        H(FMT, "c10_serialize_header_v2", "FormatV2 header bytes == documented layout", "3-byte symbolic key, all u64 fields"),
+        H(FMT, "c10_serialize_header_v1", "FormatV1 header bytes == documented layout (no expiry field)", "3-byte symbolic key"),
+        H(FMT, "c10_roundtrip_v2", "serialize -> parse returns key, value_len, timestamp, expiry bit-exactly", "3-byte key"),
+        H(FMT, "c10_retirement_marker_layout", "19-byte marker: tag|remaining|token|state=1; token message sector_le||tag||remaining||state", "any sector/remaining"),
+        H(FMT, "c10_retirement_markers_two_blocks", "block j gets marker(sector+j, remaining-j); nothing else written", "2 blocks"),
+        H(FMT, "c10_marker_token_binds_sector_and_state", "retirement_marker_token covers sector, bytes 0..16 and the state byte", "any 19 bytes"),
+        H(FMT, "c10_format_selection", "version 1 -> v1 layout, everything else -> v2 layout", "all u32 versions"),
+        H(META, "c10_metadata_from_bytes_total", "from_bytes accepts exactly the documented validator's set; CRC message = bytes 0..12,16..64,76..132; fields at documented offsets", "ALL 136-byte inputs"),
+        H(META, "c10_metadata_advance_generation", "generation+1, image still valid, fields unchanged; u64::MAX rejected unmodified", "all valid images", tier="thorough", timeout=900),
+        H(JRN, "c10_journal_encode_active_layout_n1", "ACTIVE image: offsets, size, zero padding, checksum coverage (both checksum fields zeroed), complement", "1 extent, all u64/usize values"),
+        H(JRN, "c10_journal_encode_active_layout_n2", "same with two extents", "2 extents"),
+        H(JRN, "c10_journal_encode_clear_layout", "CLEAR image layout and checksum coverage", "all generations"),
+        H(JRN, "c10_journal_geometry", "2 slots x 3 blocks in blocks 1..7; a 1024-entry image fits a slot; image size formula", "all counts <= 1024"),
+        H(IO, "c10_metadata_block_padding", "metadata image is zero-padded to one block", "all 136-byte images"),
+        H(REC, "c10_complete_retirement_block_acceptance", "recovery accepts a tail marker block iff tag, remaining, state=1 and sector-bound token match", "<=24 bytes"),
+        H(REC, "c03_reader_token_equals_writer_token", "recovery's head+tail CRC folding feeds the same message as the writer's token", "40-byte extent, any head/tail split", tier="thorough"),
     ],
+    "bounds": "see per-harness bounds; keys 3 bytes (symbolic content), extents <= 48 bytes for token coverage, 1-2 blocks for markers, 0-2 journal extents",
+    "stubs": [CRCSEL, LOCKS],
+    "assumptions": ["the reference layout in kani/*_k.rs is the documented one (README / constants) – it is written independently of the encoder, so a symmetric encoder+decoder change disagrees with it",
+                    "CRC equality for long messages rests on the byte-step lemma + streaming (bounded) + known answer, not on one monolithic query"],
+    "outside": "whole-file contents after flush, golden files, v1/v2 stores keeping their format when written to, hardware CRC, journal DECODING (12 KiB slot arrays exceed CBMC's array post-processing budget), records > 48 bytes",
+}
+
+PROPS["C17"] = {
+    "technique": "bounded model checking (Kani/CBMC): panic/overflow/out-of-bounds freedom and exact accept/reject behaviour of each parser applied to device bytes, over all inputs in bound",
+    "level_text": "SAT-decided absence of panics, arithmetic overflow and out-of-bounds access (Kani's automatic checks) plus exact accept/reject oracles for: parse_record v1/v2 and header_range on ANY <=64-byte buffer, header_range on a full block (key-length cap), Metadata::from_bytes on ALL 136-byte inputs with the real CRC kernel and on short inputs, coalesce_extents on any 3 extents, journal length check, journal_overlaps.",
+    "level_note": "Per-function totality only. The scan loop as a whole (FeoxStore method: not constructible under Kani), termination, 'rejected open leaves the file byte-identical' and the allocation-journal slot decoder (12 KiB arrays: CBMC array post-processing does not finish) are outside the claim.",
+    "jobs": 8,
+    "functions": [FMT + "::parse_record", SEQ + "::header_range", META + "::from_bytes", META + "::validate", IO + "::coalesce_extents", JRN + "::decode", REC + "::journal_overlaps"],
+    "kani": [
+        H(SEQ, "c17_header_range_total", "header_range: Some(4..end) iff key_len>=1 and header fits min(4096,len)", "any <=64 bytes, v1/v2"),
+        H(SEQ, "c17_header_range_block", "key-length cap on a full block: v1 <= 4074, v2/v3 <= 4066", "all u16 key lengths"),
+        H(FMT, "c17_parse_record_v2_total", "parse_record v2 never panics; returns the documented fields or None iff too short", "any <=64 bytes, any length"),
+        H(FMT, "c17_parse_record_v1_total", "parse_record v1 likewise", "any <=64 bytes"),
+        H(META, "c17_metadata_from_bytes_real_crc", "from_bytes with the real software CRC never panics; accepted images are in range", "ALL 136-byte inputs"),
+        H(META, "c17_metadata_short_input", "inputs shorter than 136 bytes are rejected without panic", "all lengths < 136"),
+        H(IO, "c17_coalesce_extents_three", "Err iff empty extent/overflow/overlap; Ok => sorted, disjoint, non-adjacent, same block set", "any 3 (u64,usize) extents", timeout=900),
+        H(JRN, "c17_journal_decode_wrong_length", "decode rejects any buffer that is not 6 blocks long", "lengths <= 64"),
+        H(REC, "c17_journal_overlaps_total", "journal_overlaps never indexes out of range", "<=2 entries, any index"),
+    ],
+    "bounds": "buffers <= 64 bytes (parse_record/header_range), exactly 136 bytes (metadata), 3 extents (coalesce)",
+    "stubs": [CRCSEL, LOCKS, SORT],
+    "assumptions": ["each parser is analysed in isolation on arbitrary bytes (an over-approximation of what the scan can pass it)"],
+    "outside": "scan_and_rebuild_indexes as a whole, termination, file left unmodified on a rejected open, behaviour of a store that did open, allocation_journal::decode_slot",
+}
+
+PROPS["C05"] = {
+    "technique": "bounded model checking (Kani/CBMC): extent-length agreement across all sites for every admissible key/value length, and exact-block-set oracles for the release paths over the real FreeSpaceManager",
+    "level_text": "SAT-decided: (i) writer, reader, retirement and recovery derive the same extent length for EVERY key length <= 100 KiB, value length <= 4 MiB and version, and the value fits; (ii) the write path's roll-back and scrub-release paths give back exactly the union of the eligible allocations' blocks (arbitrary block b), clear exactly those reservations and move disk_usage by the same amount, on a 64-block device with 2 allocations of symbolic position/size; (iii) the allocator step obligations of C06 (no double allocation, overlap-rejecting release).",
+    "level_note": "Step obligations on which the partition invariant rests; the invariant itself at quiescent points of whole executions, recovery's gap reconstruction and leak-freedom over long runs need the store and are outside the claim.",
+    "jobs": 6,
+    "functions": [FMT + "::total_size", FMT + "::value_offset", RECORD + "::calculate_disk_size", WB + "::release_allocations", WB + "::release_scrubbed_allocations",
+                  WB + "::reserve_sector", WB + "::clear_reserved_sector", WB + "::mark_reservation_clean", IO + "::coalesce_extents", FS + "::allocate_sectors", FS + "::release_sectors"],
+    "kani": [
+        H(FMT, "c05_extent_length_agreement", "header size / value offset / total size / div_ceil agree; value fits the extent", "all key<=100KiB, value<=4MiB, versions 1..3"),
+        H(FMT, "c05_record_disk_size_agrees_v2", "Record::calculate_disk_size == blocks*4096", "3-byte key, all value lengths"),
+        H(WB, "c05_reservation_word", "reservation word life cycle: sector | DIRTY | QUARANTINED", "all sectors < 2^30"),
+        H(WB, "c05_release_allocations_rollback", "roll-back releases clean allocations AND forgets their reservation; dirty ones untouched", "2 allocations, symbolic sectors, 64-block device"),
+        H(WB, "c09_release_scrubbed_exact_union", "scrub-release frees exactly the union of non-quarantined extents (adjacent, different sizes)", "2 allocations of 1..3 blocks", timeout=900),
+        H(FS, "c06_alloc_step_n1", "allocator step: only free blocks are handed out", "<=1 run"),
+        H(FS, "c06_release_step_n1", "allocator step: overlapping/out-of-range release rejected unchanged", "<=1 run"),
+        H(FS, "c06_alloc_step_n2", "allocator step, 2 runs", "<=2 runs", tier="thorough", timeout=1800),
+        H(FS, "c06_release_step_n2", "allocator step, 2 runs", "<=2 runs", tier="thorough", timeout=1800),
+        H(IO, "c17_coalesce_extents_three", "retirement coalescing preserves the block set", "3 extents", tier="thorough", timeout=900),
+    ],
+    "bounds": "2 allocations per batch, extents 1..3 blocks, device 64 blocks for the release paths; all lengths for (i)",
+    "stubs": [BTREE, LOCKS, SORT, "FreeSpaceManager::update_fragmentation -> no-op", "std::io::_eprint -> no-op"],
+    "assumptions": ["batches of two prepared writes are representative for the pairwise grouping logic (group merge needs >= 2)"],
+    "outside": "recovery's reconstruction of free space and counters, the partition at whole-store quiescent points, process_write_batch as a whole",
+}
+
+PROPS["C08"] = {
+    "technique": "bounded model checking (Kani/CBMC) of the post-read identity check and of the extent pin/retire word",
+    "level_text": "SAT-decided: sector_holds_record(buf, rec) is true exactly when marker, key length, key bytes, value length and timestamp in ANY <=64-byte buffer equal the record's (key 1..4 symbolic bytes) – so another key's block, a retirement-marker block or zero padding is never accepted; the extent word from ANY state: acquire succeeds iff RETIRED is clear and adds one reader, retire only sets bit 31, after it no acquire succeeds, guard drop removes exactly one reader.",
+    "level_note": "Sequential step semantics of the two mechanisms the property's anchors name. Interleavings (readers vs retirement vs reuse), range scans and the cache are not explored: Kani has no threads and the read path lives in FeoxStore (not constructible).",
+    "functions": [FMT + "::sector_holds_record", RECORD + "::acquire_extent", RECORD + "::retire_extent", RECORD + "::extent_has_readers"],
+    "kani": [
+        H(FMT, "c08_sector_holds_record_sound", "identity check accepts iff the head really is this generation's", "any <=64 bytes; key 1..4 bytes"),
+        H(RECORD, "c08_extent_word_sequential", "acquire/retire/drop/has_readers from any extent word", "all u32 states with < 2^31-1 readers"),
+    ],
+    "bounds": "buffers <= 64 bytes, keys <= 4 bytes; CAS loop unwound 2x",
+    "stubs": [LOCKS],
+    "assumptions": [],
+    "outside": "all interleavings; load_value_from_disk / prepare_deferred_record_data ordering; range scans; cache",
+}
+
+PROPS["C02"] = {
+    "technique": "bounded model checking (Kani/CBMC) of the successor-durability walk that gates retirement of an acknowledged generation",
+    "level_text": "SAT-decided on chains of up to two successors with symbolic sectors and refcounts: successor_is_durable_or_deleted() is true iff there is no successor, or the walk reaches a durable (sector>0) generation, or ends at a deleted (refcount 0) tail – a superseded-but-never-written middle generation with a live non-durable successor is NOT safe.",
+    "level_note": "One necessary condition of the property (an acknowledged value is never retired before its replacement is durable). force_flush, Drop ordering, the device trace and recovery are outside the claim.",
+    "functions": [RECORD + "::successor_is_durable_or_deleted"],
+    "kani": [
+        H(RECORD, "c02_successor_durability_walk_chain2", "two-successor chain", "symbolic sectors/refcounts", timeout=900),
+        H(RECORD, "c02_successor_durability_walk", "0..2 successors", "symbolic sectors/refcounts", tier="thorough", timeout=1800),
+    ],
+    "mem_gb": 40,
+    "bounds": "successor chains of length <= 2",
+    "stubs": [LOCKS, DROPSLOW],
+    "assumptions": [],
+    "outside": "flush acknowledgement protocol, crash images, recovery",
+}
+
+PROPS["C03"] = {
+    "technique": "bounded model checking (Kani/CBMC) of the token/marker kernels recovery relies on",
+    "level_text": "SAT-decided: the reader's token computation (record_crc_head + per-block CRC + record_token) feeds the CRC exactly the writer's message (sector_le || extent with bytes 2..4 zeroed) and folds identically, for any head/tail split of a 40-byte extent – so a record image copied to another sector or embedded in another key's value does not verify; complete-retirement-block acceptance is exact.",
+    "level_note": "Kernel obligations only. Crash images, the scan's winner selection and journal slot selection (decoder out of CBMC's reach, see C17) are outside the claim.",
+    "functions": [REC + "::record_crc_head", REC + "::record_token", REC + "::is_complete_retirement_block", SEQ + "::record_seq_token"],
+    "kani": [
+        H(REC, "c03_reader_token_equals_writer_token", "reader token == writer token, same CRC message", "40-byte extent", timeout=900),
+        H(REC, "c03_record_token_fold", "fold never yields 0", "all u32"),
+        H(REC, "c10_complete_retirement_block_acceptance", "tail marker acceptance is exact", "<=24 bytes"),
+        H(SEQ, "c10_record_token_coverage", "writer's token covers sector and content", "<=48 bytes"),
+    ],
+    "bounds": "extent images <= 48 bytes",
+    "stubs": [CRCSEL],
+    "assumptions": [],
+    "outside": "crash images, scan loop, journal replay order, slot selection",
+}
+
+PROPS["C09"] = {
+    "technique": "bounded model checking (Kani/CBMC) of the failed-batch release path over the real FreeSpaceManager",
+    "level_text": "SAT-decided: after a failed batch is scrubbed, release_scrubbed_allocations frees exactly the union of the non-quarantined allocations (arbitrary block b; adjacent allocations of different sizes merged into one release), clears exactly those reservations and leaves quarantined ones owned – so a contained write failure can never hand a live neighbour's blocks to the allocator.",
+    "level_note": "One containment obligation. Error propagation to flush(), poisoning, retry loops and recovery after faults are outside the claim.",
+    "functions": [WB + "::release_scrubbed_allocations", WB + "::quarantine_reservation", WB + "::mark_reservation_clean", WB + "::clear_reserved_sector"],
+    "kani": [
+        H(WB, "c09_release_scrubbed_exact_union", "exact union released; quarantined kept", "2 allocations of 1..3 blocks, symbolic sectors", timeout=900),
+        H(WB, "c05_reservation_word", "dirty/quarantined bits never alter the reserved sector", "all sectors < 2^30"),
+    ],
+    "bounds": "2 allocations, 64-block device",
+    "stubs": [BTREE, SORT, "FreeSpaceManager::update_fragmentation -> no-op", "std::io::_eprint -> no-op"],
+    "assumptions": [],
+    "outside": "fault injection into real I/O, poisoning, flush error propagation",
+}
+
+PROPS["C16"] = {
+    "technique": "bounded model checking (Kani/CBMC) of the cache's generation guard",
+    "level_text": "SAT-decided over every combination of cached tag {none, dead, live} x incoming {untagged, same, other} with symbolic timestamps/refcounts: a retired generation is never cached and an incoming generation never displaces a live cached generation that is not older.",
+    "level_note": "The guard function only; cache-on/off equivalence, accounting and eviction need ClockCache as a whole.",
+    "functions": ["src/core/cache.rs::can_replace_generation"],
+    "kani": [H("src/core/cache.rs", "c16_can_replace_generation", "generation guard truth table", "all u64 timestamps, u32 refcounts")],
+    "bounds": "one cached and one incoming generation",
+    "stubs": [DROPSLOW],
+    "assumptions": [],
+    "outside": "ClockCache insert/get/remove/evict sequences, accounting, concurrency",
+}
+
+PROPS["C19"] = {
+    "technique": "bounded model checking (Kani/CBMC) of the shard queue accounting the periodic coordinator reads",
+    "level_text": "SAT-decided: entries a failed flush puts back are counted again in the shard's count/size (the coordinator only wakes workers whose shards have count > 0) and return to the front in order, also when a new write arrived meanwhile.",
+    "level_note": "A necessary condition for bounded write-behind; timing, channels and the ownership map are outside.",
+    "functions": [WB + "::requeue_entries", WB + "::drain_entries", WB + "::add_entries"],
+    "kani": [H(WB, "c19_requeue_restores_count_and_order", "drain -> add -> requeue: count 3, order, size", "2+1 entries")],
+    "bounds": "3 entries",
+    "stubs": [LOCKS, DROPSLOW, "std::io::_eprint -> no-op"],
+    "assumptions": [],
+    "outside": "timing, try_send drops, worker scheduling",
+}
+
+PROPS["C20"] = {
+    "technique": "bounded model checking (Kani/CBMC, pointer checks on) of the in-flight buffer ownership rule",
+    "level_text": "SAT-decided for 3 buffers and any 4 mark_* calls: at drop a buffer whose in-flight bit is set is leaked (never freed while the kernel may still read it), every other buffer is freed exactly once, none twice.",
+    "level_note": "One sequential unit. Epoch reclamation, io_uring and every interleaving are outside the claim.",
+    "functions": [IO + "::mark_in_flight", IO + "::mark_unqueued", IO + "::mark_complete"],
+    "kani": [H(IO, "c20_inflight_buffers_drop_exactly_once", "drop-exactly-once / leak-if-in-flight", "3 buffers, 4 operations")],
+    "bounds": "3 buffers, 4 operations",
+    "stubs": [],
+    "assumptions": [],
+    "outside": "TreeSlot epoch reclamation, io_uring submissions, AlignedBuffer FFI, concurrency",
 }
